@@ -22,7 +22,7 @@ PROPERTY = 'C09'
 LEVEL = 'model_checking'
 RULE = ('program = set of 1-3 real Timer components (interval from {0, 1/2, 1, 5/2}, persistent or not, float or absolute datetime '
         'deadline, created at virtual time 0 or 1/2, optionally reset() or unregister()ed at a grid time) x background (event chain, '
-        'generator task) x (the timer event's handler calls event.stop(), for persistent timers); every environment script with <= k deviations (idle wait late / spuriously early, loop iteration costing 1/8) '
+        'generator task) x (the handler of the timer event calls event.stop(), for persistent timers); every environment script with <= k deviations (idle wait late / spuriously early, loop iteration costing 1/8) '
         'is executed under the real run(); non-trivial = execution with at least one timer firing and one idle wait; '
         'distinct = distinct (program, environment script)')
 ASSUMPTIONS = [
